@@ -42,6 +42,10 @@ class Domain:
     def concat(self, parts: list):
         return self.top()
 
+    def concat_at(self, node, parts: list, eng: "Engine", frame):
+        """Like concat, with access to the expression (defaults to concat)."""
+        return self.concat(parts)
+
     def container(self, elems: list):
         """Value of a list/tuple/set literal or comprehension with these element values."""
         v = self.bottom()
@@ -151,6 +155,74 @@ class Engine:
                 # assigned on one branch only: join with "unassigned" = keep the value
                 out[k] = e1.get(k, e2.get(k))
         return out
+
+    def callsite_values(self, func: FuncInfo, param: str):
+        """Join of the values passed for `param` at every resolved call site of func."""
+        key = ("callsites", func, param)
+        if key in self._attr_memo:
+            return self._attr_memo[key]
+        if key in self._attr_active:
+            return self.dom.bottom()
+        self._attr_active.add(key)
+        self.quiet += 1
+        try:
+            params = func.params[1:] if func.cls is not None and func.params[:1] in (["self"], ["cls"]) else func.params
+            idx = params.index(param) if param in params else None
+            v = None
+            for caller in self.prog.all_functions():
+                if caller.module.name == "pygopherd.testutil":
+                    continue
+                for n in ast.walk(caller.node):
+                    if not isinstance(n, ast.Call):
+                        continue
+                    nm = n.func.attr if isinstance(n.func, ast.Attribute) else (n.func.id if isinstance(n.func, ast.Name) else None)
+                    if nm != func.name:
+                        continue
+                    t = self.resolver.resolve(n, caller, caller.cls)
+                    if t.kind not in ("repo", "ctor") or func not in t.funcs:
+                        continue
+                    arg = None
+                    if idx is not None and idx < len(n.args):
+                        arg = n.args[idx]
+                    for k in n.keywords:
+                        if k.arg == param:
+                            arg = k.value
+                    if arg is None:
+                        continue
+                    env = {}
+                    for p in caller.params + caller.kwonly:
+                        if p not in ("self", "cls"):
+                            pv = self.dom.param_default(caller, p, self) if (caller, p) != (func, param) else None
+                            env[p] = pv if pv is not None else self.dom.top()
+                    fr = Frame(caller, caller.cls, env, (), 1)
+                    # bind locals by a forward pass over the caller, capturing the argument value
+                    captured = []
+                    orig = self.x_Call
+
+                    def hook(node, f2, _n=n, _arg=arg, _orig=orig):
+                        if node is _n:
+                            captured.append(self.expr(_arg, f2))
+                        return _orig(node, f2)
+
+                    akey = (caller, caller.cls, "cs")
+                    if akey in self._active:
+                        continue
+                    self._active.add(akey)
+                    self.x_Call = hook
+                    try:
+                        self.block(caller.node.body, fr)
+                    finally:
+                        self.x_Call = orig
+                        self._active.discard(akey)
+                    for c in captured:
+                        v = self.join(v, c)
+            if v is None:
+                v = self.dom.top()
+        finally:
+            self.quiet -= 1
+            self._attr_active.discard(key)
+        self._attr_memo[key] = v
+        return v
 
     # ------------------------------------------------------------- functions
     def eval_func(self, func: FuncInfo, concrete: Optional[ClassInfo], args: Dict[str, object],
@@ -546,7 +618,7 @@ class Engine:
         left = self.expr(node.left, fr)
         right = self.expr(node.right, fr)
         if isinstance(node.op, ast.Add):
-            v = self.dom.concat([left, right])
+            v = self.dom.concat_at(node, [left, right], self, fr)
             self.dom.on_expr(node, v, [left, right], self, fr)
             return v
         if isinstance(node.op, ast.Mod):
